@@ -1,9 +1,9 @@
-(* Proofs/RoutesRefuted.v — C13: the two recorded defects of the toml::Value family, as witnesses on
-   the level of the value tree.
-     C13-tryinto-datetime-string   `impl Deserializer for toml::Value` hands a date-time to the visitor as
-                                   a string: Datetime's visitor (visit_map only) refuses it
-     C13-tryfrom-datetime-table    toml::value::ValueSerializer::serialize_struct ignores the tunnel name:
-                                   a date-time becomes the table { "$__toml_private_datetime" = "<text>" } *)
+(* Proofs/RoutesRefuted.v — C13: the former witnesses of the two defects of the toml::Value family, now
+   REPAIRED in /repo (the file keeps its name; nothing is refuted any more):
+     C13-tryinto-datetime-string   `impl Deserializer for toml::Value` handed a date-time to the visitor as a
+                                   string; it now goes through toml_datetime's private struct, as in toml_edit
+     C13-tryfrom-datetime-table    toml::value::ValueSerializer::serialize_struct ignored the tunnel name and
+                                   wrote { "$__toml_private_datetime" = "<text>" }; it now yields Value::Datetime *)
 From TV Require Import Base.Prelude Model.Datetime Model.DatetimeStd Model.SerNum Spec.SerdeData Model.Ser Model.De
   Model.SerdeRoutes Extract.Show.
 Require Import String.
@@ -14,30 +14,20 @@ Definition dt_d : datetime := mkDT (Some (mkDate 1979 5 27)) (Some (mkTime 7 32 
 Definition dt_val : sval := SRec [SDt dt_d].
 Definition dt_tree : tomlval := VTab [(str "d", VDatetime dt_d)].
 
-(* "on text obtained by serializing a value of the target type every route succeeds and returns that
-   value" is FALSE for the routes through toml::Value / toml::Table: the text of S parses (as a
-   document, as a toml::Value) to the tree with the date-time, every toml_edit-based route returns
-   the value, Value::try_into / Table::try_into fail *)
-Theorem on_serialized_refuted :
-  exists t v out,
-    has_type v t /\ ser_toml_root t v = Ok out
-    /\ decode R_t t out = Ok v /\ decode R_e t out = Ok v
-    /\ (exists y, to_toml_value out = Ok y /\ to_toml_table out = Ok y)
-    /\ decode R_tval t out = Err EDe /\ decode R_ttab t out = Err EDe.
-Proof.
-  exists dt_ty, dt_val, dt_tree. repeat split; try (vm_compute; reflexivity).
-  exists dt_tree. split; vm_compute; reflexivity.
-Qed.
+(* every route, the ones through toml::Value / toml::Table included, returns the value *)
+Theorem on_serialized_datetime :
+  has_type dt_val dt_ty /\ ser_toml_root dt_ty dt_val = Ok dt_tree
+  /\ to_toml_value dt_tree = Ok dt_tree /\ to_toml_table dt_tree = Ok dt_tree
+  /\ forall r, decode r dt_ty dt_tree = Ok dt_val.
+Proof. repeat split; try (vm_compute; reflexivity). intro r. destruct r; vm_compute; reflexivity. Qed.
 
-(* "converting a Rust value with try_from gives the same tree as serializing it to text and parsing
-   that text, for every type including those containing date-times" is FALSE: try_from gives the
-   private-key table where the parsed text has the date-time *)
-Theorem try_from_refuted :
-  exists t v out y y',
-    has_type v t /\ ser_toml_root t v = Ok out /\ to_toml_value out = Ok y
-    /\ tv_ser t v = Ok y' /\ tv_ser_table t v = Ok y' /\ y <> y'.
-Proof.
-  exists dt_ty, dt_val, dt_tree, dt_tree,
-    (VTab [(str "d", VTab [(DT_FIELD, VStr (display_datetime dt_d))])]).
-  repeat split; try (vm_compute; reflexivity). discriminate.
-Qed.
+(* Value::try_from / Table::try_from give the tree the serialized text parses to, date-time included *)
+Theorem try_from_datetime :
+  ser_toml_root dt_ty dt_val = Ok dt_tree /\ to_toml_value dt_tree = Ok dt_tree
+  /\ tv_ser dt_ty dt_val = Ok dt_tree /\ tv_ser_table dt_ty dt_val = Ok dt_tree.
+Proof. repeat split; vm_compute; reflexivity. Qed.
+
+(* a String target does not get the text of a date-time, on any route (as toml::from_str answers) *)
+Theorem datetime_is_not_a_string :
+  forall r, decode r (TStruct (str "S") [(str "d", TStr)]) dt_tree = Err EDe.
+Proof. intro r. destruct r; vm_compute; reflexivity. Qed.
